@@ -219,3 +219,54 @@ class Flags:
             v, d = flag_forms(self.rng, b)
         self.used.append(d)
         return v, d
+
+
+# ---------------------------------------------------------------- integer options in every form the caller may hand over
+INT_FORMS = ("py", "np.int64", "np.int32", "np.intp", "np.uint8", "np0d", "t0d")
+
+
+def int_value(form, n):
+    """the object to pass for the integer option value `n` in the given form"""
+    n = int(n)
+    if form == "py":
+        return n
+    if form == "np.int64":
+        return np.int64(n)
+    if form == "np.int32":
+        return np.int32(n)
+    if form == "np.intp":
+        return np.intp(n)
+    if form == "np.uint8":
+        return np.uint8(n) if 0 <= n < 256 else n
+    if form == "np0d":
+        return np.array(n)
+    if form == "t0d":
+        return torch.tensor(n)
+    raise ValueError(form)
+
+
+def int_forms(rng, n, allowed=INT_FORMS, plain=0.3):
+    """(object to pass, JSON-able descriptor) for the integer option value `n`: a Python int with probability `plain`, otherwise one
+    of the `allowed` forms (pass only the forms the CLEAN code accepts for that option)"""
+    form = "py" if rng.random() < plain else rng.choice([f for f in allowed])
+    if form == "np.uint8" and not (0 <= int(n) < 256):
+        form = "np.int64"
+    return int_value(form, n), {"form": form, "value": int(n)}
+
+
+class Ints:
+    """deterministic stream of integer forms for ONE case, seeded by the case's `iseed` (a replay hands over the same objects);
+    `iseed=None`: plain Python ints.  `it(n, allowed=...)` -> (object, descriptor); every descriptor is kept in `used`."""
+
+    def __init__(self, iseed):
+        import random
+        self.rng = None if iseed is None else random.Random(iseed)
+        self.used = []
+
+    def __call__(self, n, allowed=INT_FORMS):
+        if self.rng is None:
+            v, d = int(n), {"form": "py", "value": int(n)}
+        else:
+            v, d = int_forms(self.rng, n, allowed)
+        self.used.append(d)
+        return v, d
